@@ -66,7 +66,7 @@ fn virtual_time_connections(rep: &Report) -> u64 {
 fn configured_server_ids(rep: &Report) -> u64 {
     use passage_adapters::authentication::AuthenticationAdapter;
     let mut n = 0;
-    let ids = ["", "lobby", "0123", "007", "1e5", "TRUE", "+7", "-0", "12.50", "0x1F", "exactly-twenty-chars", "twenty-one-characters", "a server id of forty-three characters, long", "a-server-id-well-beyond-any-protocol-string-limit-that-a-tidy-minded-conversion-might-want-to-enforce-on-it"];
+    let ids = ["", "lobby", "0123", "007", "1e5", "TRUE", "+7", "-0", "12.50", "0x1F", "s\u{fc}d-1", "\u{30ed}\u{30d3}\u{30fc}", "exactly-twenty-chars", "twenty-one-characters", "a server id of forty-three characters, long", "a-server-id-well-beyond-any-protocol-string-limit-that-a-tidy-minded-conversion-might-want-to-enforce-on-it"];
     let dir = format!("{}/target/c11-config-{}", common::VERIF_ROOT, std::process::id());
     let _ = std::fs::create_dir_all(&dir);
     let rt = tokio::runtime::Builder::new_current_thread().enable_all().build().expect("rt");
